@@ -609,11 +609,112 @@ def run_c17(tier, deadline):
     return outcome
 
 
+# ------------------------------------------------------------------------------------------- C18
+C18_GROUPS = {"dir_NoLabel": 0, "und_NoLabel": 1, "dir_int": 2, "und_string": 3, "dmulti": 4, "umulti": 5, "dweighted": 6, "uweighted": 7}
+TSAN_ENV = {"TSAN_OPTIONS": "exitcode=66:halt_on_error=1:report_signal_unsafe=0"}
+
+
+def c18_build(group, compiler="g++"):
+    flags = ["-O1", "-g", "-fsanitize=thread"]
+    if compiler == "g++":   # function-entry switch points, only for functions defined in BaseGraph headers
+        flags += ["-finstrument-functions", "-finstrument-functions-exclude-file-list=/usr/include,/usr/lib,/verif/"]
+    return Build("c18_%s_g%d" % ("gxx" if compiler == "g++" else "clang", group), "harness/c18.cpp", compiler=compiler, flags=flags + ["-DGROUP=%d" % group],
+                 libs=["-lpthread", "-ldl"], plain_c_objects=["mc/sched/sched.c"])
+
+
+def run_c18(tier, deadline):
+    import shutil
+    import subprocess
+    outcome = Outcome("C18", tier, "model_checking")
+    classes = list(C18_GROUPS.keys())
+    builds = {(c, "g++"): c18_build(C18_GROUPS[c]) for c in classes}
+    clang_classes = ["dir_int", "uweighted"] if tier == "quick" else classes
+    for c in clang_classes:
+        builds[(c, "clang++")] = c18_build(C18_GROUPS[c], "clang++")
+    built = build_all(list(builds.values()))
+    if compile_failures(outcome, built):
+        outcome.coverage = {"states": 0, "transitions": 0, "traces_validated_against_impl": 0, "samples": ["harness did not compile"], "evaluations": 1, "distinct_nontrivial": 0}
+        return outcome
+    workdir = os.path.join(build_dir(), "work-C18-%s-%d" % (tier, os.getpid()))
+    os.makedirs(workdir, exist_ok=True)
+    # canary: the serialising scheduler must not blind ThreadSanitizer
+    for comp in ("g++", "clang++"):
+        ok, path, _ = built[builds[("dir_int", comp)].name]
+        env = dict(os.environ)
+        env.update(TSAN_ENV)
+        p = subprocess.run([path, "--config", "canary"], stdout=subprocess.PIPE, stderr=subprocess.STDOUT, text=True, env=env, timeout=120)
+        if p.returncode != 66 or "data race" not in p.stdout:
+            print("INFRASTRUCTURE ERROR: canary race under the scheduler was NOT reported by ThreadSanitizer (%s build, exit %d); the harness would be blind\n%s" % (comp, p.returncode, p.stdout[-1500:]))
+            os._exit(2)
+    jobs = []
+    k = 0
+
+    def add(c, comp, mode, bound, threads, core, dl=None):
+        nonlocal k
+        tmpd = os.path.join(workdir, "t%d" % k)
+        k += 1
+        os.makedirs(tmpd, exist_ok=True)
+        args = ["--config", c, "--mode", mode, "--bound", str(bound), "--threads", str(threads), "--tmpdir", tmpd, "--tier", tier] + (["--core"] if core else [])
+        j = Job(builds[(c, comp)], args, label="%s %s %s k=%d P<=%d%s" % (comp, c, mode, threads, bound, " core" if core else ""), timeout=(dl or deadline) + 300, deadline=dl or deadline, env=TSAN_ENV)
+        jobs.append(j)
+
+    for c in classes:
+        add(c, "g++", "coarse", 2, 2, False)     # all pairs, synchronisation-level switch points (thread start/end, locks)
+        add(c, "g++", "free", 0, 4 if tier == "thorough" else 3, True)   # free-running pass, no scheduler
+    for c in clang_classes:
+        add(c, "clang++", "free", 0, 2, False)
+        add(c, "clang++", "coarse", 2, 2, False)
+    for c in (["dir_int", "uweighted"] if tier == "quick" else classes):
+        add(c, "g++", "coarse", 2, 3, True)      # all triples of the core
+    fine1 = ["dir_int", "und_string", "umulti", "dweighted"] if tier == "quick" else classes
+    for c in fine1:
+        add(c, "g++", "fine", 1, 2, True)        # function-entry switch points, one preemption
+    if tier == "thorough":
+        for c in ["dir_int", "und_string", "uweighted", "dmulti"]:
+            add(c, "g++", "fine", 2, 2, True, dl=1500)   # two preemptions; bounded by a deadline (reported as a cap if hit)
+    run_jobs(jobs, built, workdir)
+    # a ThreadSanitizer report ends the worker with exit code 66
+    for j in jobs:
+        if j.returncode == 66:
+            summary = [l for l in j.output.splitlines() if "SUMMARY: ThreadSanitizer" in l or "WARNING: ThreadSanitizer" in l]
+            tuples = [l for l in j.output.splitlines() if l.startswith("TUPLE ")]
+            where = summary[-1] if summary else "data race"
+            func = where.split(" in ")[-1][:80] if " in " in where else "unknown"
+            outcome.add_violation("C18:data-race:%s" % func, "ThreadSanitizer reported a data race between threads that only call const operations on one shared graph, job `%s`, while exploring %s\n%s\n%s" % (
+                j.label, tuples[-1] if tuples else "?", "\n".join(summary[:3]), j.output[-2500:]), {"build": j.build.name, "args": j.args, "env": j.env})
+            j.status = "ok-race"
+            j.returncode = 0
+    results = collect(outcome, [j for j in jobs if j.status != "ok-race"], built)
+    shutil.rmtree(workdir, ignore_errors=True)
+    per = {}
+    for r in results:
+        per[r.get("config", "?")] = {kk: r.get("counters", {}).get(kk, 0) for kk in ("op_tuples", "executions", "switch_points", "max_points_in_one_execution", "distinct_outcomes", "operations")}
+    execs = sum_counter(results, "executions")
+    outcome.coverage = {
+        "states": execs,
+        "transitions": sum_counter(results, "switch_points"),
+        "traces_validated_against_impl": execs,
+        "samples": gather_samples(results, 4) + [{"schedule_example": "two threads, function-entry switch points, prefix [0,0,1] = thread 0 runs two points, then thread 1 is switched in (one preemption), then the default policy finishes"}],
+        "explanation": "states = executions = distinct (operation tuple, schedule) pairs run on the real code under the controlled scheduler (every one is an implementation trace: there is no separate model); "
+                       "transitions = switch points taken. Iterative context bounding: all schedules with at most P preemptions of every unordered pair (and triple of the core) of const operations on a freshly built shared graph "
+                       "of three shapes, for all eight classes; coarse = switch points at thread start/end and lock operations, fine = additionally at the entry of every function defined in a BaseGraph header; plus a free-running "
+                       "pass. Everything runs under ThreadSanitizer with the scheduler's hand-offs invisible to it (canary verified at the start of every run).",
+        "op_tuples": sum_counter(results, "op_tuples"),
+        "distinct_outcomes": sum_counter(results, "distinct_outcomes"),
+        "configurations": per,
+        "canary": "a deliberate race under the scheduler was reported by TSan in the g++ and clang++ builds",
+    }
+    outcome.assumptions = ["switches happen at function entry, not at every memory access; below that granularity completeness rests on ThreadSanitizer seeing no conflicting access in any explored execution (DESIGN.md C18)",
+                           "sequentially consistent interleavings only", "the const alphabet in harness/c18.cpp (about 25-30 operations per class)"]
+    return outcome
+
+
 import c20  # noqa: E402
 
 PLANS = {}
 PLANS["C20"] = c20.run_c20
 PLANS["C17"] = run_c17
+PLANS["C18"] = run_c18
 for _p in IO_PLANS:
     PLANS[_p] = (lambda prop: (lambda tier, deadline: run_io(prop, tier, deadline)))(_p)
 for _p in PATHS_PLANS:
@@ -634,7 +735,7 @@ def c17_setup_builds():
 
 
 def all_builds():
-    bs = [e1_build(g) for g in range(8)] + [c07_build(g) for g in range(10)] + [shapes_build(g) for g in range(9)] + [paths_build(g) for g in range(4)] + [io_build(g) for g in range(4)] + [io_build(g, True) for g in range(4)] + c17_setup_builds()
+    bs = [e1_build(g) for g in range(8)] + [c07_build(g) for g in range(10)] + [shapes_build(g) for g in range(9)] + [paths_build(g) for g in range(4)] + [io_build(g) for g in range(4)] + [io_build(g, True) for g in range(4)] + c17_setup_builds() + [c18_build(g) for g in range(8)] + [c18_build(2, "clang++"), c18_build(7, "clang++")]
     return bs
 
 
